@@ -165,7 +165,7 @@ def run_tlc(module: str, cfg: str | None = None, *, workdir: Path, workers: int 
         cfg_path = SPEC / cfg
     meta = Path(workdir) / f'meta-{module}-{os.getpid()}-{time.time_ns()}'
     meta.mkdir(parents=True, exist_ok=True)
-    java = ['java', '-XX:+UseParallelGC', f'-Xmx{heap}']
+    java = ['java', '-XX:+UseParallelGC', f'-Xmx{heap}', '-Xss32m']
     if deque:
         java.append('-Dtlc2.tool.queue.IStateQueue=StateDeque')
     # module search path: spec dir + workdir/gen (generated modules)
@@ -341,11 +341,31 @@ class Outcome:
         return code
 
 
+def _sanitize(x: Any) -> Any:
+    """TLC's Json module rejects null and mangles floats / big ints: None -> "null",
+    bool -> 0/1, float -> str, |int| >= 2^31 -> str."""
+    if x is None:
+        return 'null'
+    if isinstance(x, bool):
+        return 1 if x else 0
+    if isinstance(x, int):
+        return x if -2**31 < x < 2**31 else str(x)
+    if isinstance(x, float):
+        return str(x)
+    if isinstance(x, dict):
+        return {str(k): _sanitize(v) for k, v in x.items()}
+    if isinstance(x, (list, tuple)):
+        return [_sanitize(v) for v in x]
+    if isinstance(x, bytes):
+        return list(x)
+    return x
+
+
 def write_ndjson(path: Path, lines: Iterable[dict[str, Any]]) -> int:
     n = 0
     with path.open('w') as f:
         for ln in lines:
-            f.write(json.dumps(ln, separators=(',', ':')))
+            f.write(json.dumps(_sanitize(ln), separators=(',', ':'), default=str))
             f.write('\n')
             n += 1
     return n
@@ -394,11 +414,15 @@ def validate_trace(module: str, lines: list[dict[str, Any]], *, workdir: Path, c
         if env:
             e.update(env)
         r = run_tlc(module, cfg, workdir=workdir, workers=1, env=e, timeout=timeout, deque=deque)
+        if not r.ok and os.environ.get('VERIF_KEEP'):
+            shutil.copyfile(path, Path(os.environ['VERIF_KEEP']) / path.name)
+            (Path(os.environ['VERIF_KEEP']) / (path.name + '.out')).write_text(r.out)
         path.unlink(missing_ok=True)
         if not r.ok:
+            i = r.out.find('Error:')
             raise MachineryFailure(
                 f'trace validation {module} chunk {idx} (lines {a}..{b}) not accepted by TLC '
-                f'(exit {r.code}):\n{r.out[-3000:]}')
+                f'(exit {r.code}):\n{r.out[i:i + 1500] if i >= 0 else ""}\n...\n{r.out[-1200:]}')
         stats['tlc_states'] += r.distinct
         vs = r.tagged('V')
         for v in vs:
